@@ -195,7 +195,9 @@ class QueryPlanner:
             cte_result = self.get_cte_result(table)
             if cte_result is not None:
                 select.from_table = None
-                return SubSelectStep(select, cte_result, table_name=table.parts[-1])
+                # later steps address the result by the alias of the reference, if it has one
+                name = table.alias if table.alias is not None else table
+                return SubSelectStep(select, cte_result, table_name=name.parts[-1])
 
             integration_name, table = self.resolve_database_table(select.from_table)
 
